@@ -769,6 +769,12 @@ def directed_scripts(tier):
     out.append({'policy': {'bob': ['notexists', 'exists']}, 'raising_listener': True,
                 'ops': [['track', 0, 1], ['step', 9], ['track', 0, 4], ['step', 2], ['adv', 601], ['step', 9], ['untrack', 0, 5], ['step', 6]], 'settle_rounds': 1})
     out.append({'policy': pol, 'raising_listener': True, 'ops': [['xfer_add', 0], ['cycle'], ['step', 8], ['close'], ['step', 8], ['relogin'], ['cycle']], 'settle_rounds': 1})
+    # an attempt fails twice in a row (the retry task of the first failure exists when RETRY_PENDING is entered again) and the
+    # server connection is lost at every offset around the second failure (cancellation inside the helpers it calls)
+    for beh in ('sendfail', 'notexists', 'silence'):
+        for j in range(0, 12):
+            out.append({'policy': {'bob': [beh, beh, beh, beh]},
+                        'ops': [['track', 0, 1], ['step', 8], ['adv', 10.5 if beh != 'notexists' else 601], ['step', j], ['close'], ['step', 6]], 'settle_rounds': 2})
     # retry expiry with and without a remaining reason
     out.append({'policy': {'bob': ['silence', 'exists']}, 'ops': [['track', 0, 1], ['step', 5], ['adv', 10.5], ['step', 6], ['adv', 10.5], ['step', 8]], 'settle_rounds': 0})
     out.append({'policy': {'bob': ['sendfail', 'notexists', 'exists']}, 'ops': [['track', 0, 1], ['step', 5], ['adv', 10.5], ['step', 8], ['untrack', 0, 1], ['step', 5], ['adv', 601], ['step', 5]], 'settle_rounds': 1})
